@@ -759,7 +759,32 @@ func init() {
 			}}, nil
 		}
 		data := []byte(fixturesBundlePEM(w))
-		return &c13Art{data: data, fields: bytes.SplitAfter(data, []byte("\n")), wrapTiny: c13PEM("CERTIFICATE"), cons: []c13Cons{
+		return &c13Art{data: data, byz: c13MeshBundles(), fields: bytes.SplitAfter(data, []byte("\n")), wrapTiny: c13PEM("CERTIFICATE"), cons: []c13Cons{
+			c13C("smx509.ParseCertificatePEM+Verify(first of bundle, rest as intermediates)", false, func(in []byte) error {
+				// a peer presents its certificate followed by whatever else it likes; the verifier's roots are its own
+				var first *smx509.Certificate
+				pool := smx509.NewCertPool()
+				for rest := in; ; {
+					var blk *pem.Block
+					if blk, rest = pem.Decode(rest); blk == nil {
+						break
+					}
+					crt, err := smx509.ParseCertificate(blk.Bytes)
+					if err != nil {
+						return err
+					}
+					if first == nil {
+						first = crt
+					} else {
+						pool.AddCert(crt)
+					}
+				}
+				if first == nil {
+					return errC13
+				}
+				_, err := first.Verify(verifyOpts(w, pool))
+				return err
+			}),
 			c13C("smx509.ParseCertificatePEM", true, func(in []byte) error { _, err := smx509.ParseCertificatePEM(in); return err }),
 			c13C("smx509.CertPool.AppendCertsFromPEM+Verify", true, func(in []byte) error {
 				pool := smx509.NewCertPool()
@@ -1385,4 +1410,64 @@ func fixturesBundlePEM(w *c13World) string {
 		pem.Encode(&b, &pem.Block{Type: "CERTIFICATE", Bytes: c.Raw})
 	}
 	return b.String()
+}
+
+// c13MeshBundles: what a hostile peer can present instead of a certificate chain - a leaf followed by N CAs that have
+// all cross-certified one another (N(N-1) certificates, every signature VALID), none of them trusted. Path building must
+// give up after a bounded amount of work (the documented signature-check budget); every check succeeds, so only a budget
+// that counts successful checks too stops the N! walk.
+var c13MeshCache [][]byte
+
+func c13MeshBundles() []c13Byz {
+	if c13MeshCache == nil {
+		for _, n := range []int{5, 9, 12} {
+			type ca struct {
+				key  *sm2.PrivateKey
+				tmpl *x509.Certificate
+			}
+			serial := int64(90000 + 1000*n)
+			issue := func(subject string, pub any, isCA bool, issuer *x509.Certificate, key *sm2.PrivateKey) (*x509.Certificate, []byte) {
+				serial++
+				t := &x509.Certificate{SerialNumber: big.NewInt(serial), Subject: pkix.Name{CommonName: subject}, NotBefore: c13Now.AddDate(-1, 0, 0), NotAfter: c13Now.AddDate(1, 0, 0),
+					KeyUsage: x509.KeyUsageCertSign | x509.KeyUsageDigitalSignature, BasicConstraintsValid: true, IsCA: isCA}
+				if issuer == nil {
+					issuer = t
+				}
+				der, err := smx509.CreateCertificate(&sim.ScriptReader{Data: scalarFrom([]byte(subject), fmt.Sprint("mesh sig ", serial)), Fill: 7, Step: 3}, t, issuer, pub, key)
+				if err != nil {
+					return t, nil
+				}
+				return t, der
+			}
+			cas := make([]ca, n)
+			for i := range cas {
+				k, err := sm2.NewPrivateKey(scalarFrom([]byte{byte(n), byte(i)}, "mesh ca"))
+				if err != nil {
+					return nil
+				}
+				t, _ := issue(fmt.Sprintf("verif bridge CA %d", i), &k.PublicKey, true, nil, k)
+				cas[i] = ca{k, t}
+			}
+			lk, err := sm2.NewPrivateKey(scalarFrom([]byte{byte(n)}, "mesh leaf"))
+			if err != nil {
+				return nil
+			}
+			_, leaf := issue("verif mesh leaf", &lk.PublicKey, false, cas[0].tmpl, cas[0].key)
+			out := pem.EncodeToMemory(&pem.Block{Type: "CERTIFICATE", Bytes: leaf})
+			for i := range cas {
+				for j := range cas {
+					if i != j {
+						_, der := issue(cas[i].tmpl.Subject.CommonName, &cas[i].key.PublicKey, true, cas[j].tmpl, cas[j].key)
+						out = append(out, pem.EncodeToMemory(&pem.Block{Type: "CERTIFICATE", Bytes: der})...)
+					}
+				}
+			}
+			c13MeshCache = append(c13MeshCache, out)
+		}
+	}
+	var items []c13Byz
+	for i, b := range c13MeshCache {
+		items = append(items, c13Byz{fmt.Sprintf("leaf under a mesh of cross-certified untrusted CAs (bundle %d, %d bytes)", i, len(b)), b})
+	}
+	return items
 }
